@@ -6,6 +6,11 @@
     `StorageKeyFormingConvention.make_keys` (+ `make_edged_name`, `CollisionEvadingConvention.mark_key`),
     `StorageStanzaCleaner.remove_annotations / remove_empty_stanzas`, `dicts.cherrypick`.
 
+  Since kopf 571b1b2 a handler's field (and a status storage's own field) hidden behind a non-mapping value is an
+  absent field: `cherrypickSkip` (the guarded restoring loop of `build`) and `ignoreFields e [field]` /
+  `ignoreFields e [field, touch]` (the guarded removals of StatusDiffBaseStorage.build / StatusProgressStorage.clear).
+  The two implicit picks (`metadata.labels`, `metadata.annotations`) stay one unguarded `cherrypick`.
+
   Errors the code raises are part of the result (`Err`). Inputs the model does not describe
   (`metadata.annotations` present but not a mapping, malformed `ownerReferences`, a missing blake2b
   value in the passed-in hash table) answer `unmodelled` — never a default.
@@ -219,6 +224,18 @@ def cherrypick (src : J) : J → List (List String) → Except Err J
       | .error .keyError => cherrypick src dst fs
       | .error e => .error e
 
+/-- the restoring loop of `DiffBaseStorage.build` since kopf 571b1b2:
+      `for extra_field in extra_fields: try: dicts.cherrypick(src, dst, fields=[extra_field]) except TypeError: pass`
+    — field by field; a field hidden behind a non-mapping value (of the body: `resolve` raises; of the essence
+    so far: `ensure` raises, before it has written anything) is skipped like an absent one. -/
+def cherrypickSkip (src : J) : J → List (List String) → Except Err J
+  | dst, [] => .ok dst
+  | dst, f :: fs =>
+      match cherrypick src dst [f] with
+      | .ok dst' => cherrypickSkip src dst' fs
+      | .error .typeError => cherrypickSkip src dst fs       -- `except TypeError: pass`
+      | .error e => .error e
+
 /-- `essence.get('metadata', {}).get(name)` when `metadata` is a mapping. -/
 def metaGet (e : J) (name : String) : Option J :=
   match e.get? "metadata" with
@@ -293,7 +310,9 @@ def ignoreFields : J → List (List String) → Except Err J
       | .error .typeError => ignoreFields e fs      -- `except TypeError: pass`
       | .error x => .error (ofDictErr x)
 
-/-- `DiffBaseStorage.build(body, extra_fields)` of the base class. -/
+/-- `DiffBaseStorage.build(body, extra_fields)` of the base class (the two implicit picks of
+    `metadata.labels` / `metadata.annotations` are ONE unguarded `dicts.cherrypick`; the handlers' fields are
+    restored by the guarded loop `cherrypickSkip`). -/
 def baseBuild (ignored extra : List (List String)) (body : J) : Except Err J :=
   match body with
   | .obj kvs => do
@@ -304,7 +323,7 @@ def baseBuild (ignored extra : List (List String)) (body : J) : Except Err J :=
         | some (.obj anns) => markedPrefixes (keys anns)
         | _ => []
       let e2 := filterAnnotations (keepAnnotation prefixes) e1
-      let e3 ← cherrypick body e2 extra
+      let e3 ← cherrypickSkip body e2 extra
       if !metaOK e3 then throw .unmodelled
       let e4 := removeEmptyStanzas e3
       ignoreFields e4 ignored
@@ -327,7 +346,8 @@ def leafBuild (h : Hashes) (extra : List (List String)) (body : J) : DiffBaseLea
       pure (removeEmptyStanzas (removeAnnotations ks e))
   | .status field ignored => do
       let e ← baseBuild ignored extra body
-      liftD (remove e field)
+      -- `try: dicts.remove(essence, self.field) except TypeError: pass` (kopf 571b1b2) — the very step of `ignoreFields`
+      ignoreFields e [field]
 
 /-- `body['metadata']['ownerReferences']` if `metadata` is a mapping that has it. -/
 def ownerRefs (body : J) : Option J :=
@@ -380,7 +400,9 @@ inductive ProgressLeaf where
 /-- Multi/Smart are lists; a single storage is a one-element list. -/
 abbrev ProgressCfg := List ProgressLeaf
 
-/-- `dicts.remove(essence, self.field); dicts.remove(essence, self.touch_field)` (kopf dbb523b). -/
+/-- `dicts.remove(essence, self.field); dicts.remove(essence, self.touch_field)` (kopf dbb523b) — the variant BEFORE
+    kopf 571b1b2 (a TypeError of either removal was raised); kept for the regression theorem
+    `hidden_status_field_raised_witness`. -/
 def remove2 (e : J) (field touch : List String) : Except DictErr J := do
   let e1 ← remove e field
   remove e1 touch
@@ -390,7 +412,8 @@ def clearLeaf (e : J) : ProgressLeaf → Except Err J
       if !metaOK e then .error .unmodelled else
       .ok (removeEmptyStanzas (filterAnnotations (fun k => !underPrefix prefix_.toList k) e))
   | .status field touch => do
-      let e' ← liftD (remove2 e field touch)
+      -- `for field in (self.field, self.touch_field): try: dicts.remove(essence, field) except TypeError: pass` (kopf 571b1b2)
+      let e' ← ignoreFields e [field, touch]
       if !metaOK e' then throw .unmodelled
       pure (removeEmptyStanzas e')
 
